@@ -114,6 +114,7 @@ def grain_part(ctx):
     """the step limit of GrainGrowthModel (the same transport on a grain size distribution) at every iteration, judged by Relations.tla"""
     from .. import gg_drv as G
     ev, info = G.step_limit_relations(ctx.tier)
+    ev = ev + G.ratio_relations()[1:]            # the fraction a call names / the documented default, whatever the object was asked before
     reached, r = T.validate("Relations", [], [ev], "c07_grain")
     ctx.add_tlc(r, "Relations over the grain growth step limits")
     if r.violated or reached is None:
